@@ -21,6 +21,19 @@ struct ReqFam {
   static int len_quantum(int cfg) { (void)cfg; return 0; }
   static int chunk_quantum(int cfg) { (void)cfg; return 0; }
   static bool has_exact_region() { return true; }
+  // serialize + deserialize through a stream image or a byte image
+#if defined(C08_ITEM_SELFMOVE)
+  static SK roundtrip_image(const SK& s, bool) { return s; }
+#else
+  static SK roundtrip_image(const SK& s, bool bytes) {
+    if (bytes) { auto b = s.serialize(); return SK::deserialize(b.data(), b.size()); }
+    std::stringstream ss(std::ios::in | std::ios::out | std::ios::binary);
+    s.serialize(ss);
+    return SK::deserialize(ss);
+  }
+#endif
+  static std::string published_error_text(const SK& s) { return "lb(0.5,1)=" + str(s.get_rank_lower_bound(0.5, 1)) + " ub(0.5,1)=" + str(s.get_rank_upper_bound(0.5, 1)); }
+  static bool within_published(const SK& s, double est, double tr) { return s.get_rank_lower_bound(est, 3) - 1e-12 <= tr && tr <= s.get_rank_upper_bound(est, 3) + 1e-12; }
   // the sketch publishes zero error at this rank (within 3k/n of the accurate end, or not in estimation mode)
   static bool exact_claim(const SK& s, double true_rank) { return s.get_rank_lower_bound(true_rank, 3) == s.get_rank_upper_bound(true_rank, 3); }
 #if defined(C08_ITEM_SELFMOVE)
@@ -318,7 +331,7 @@ static std::vector<c08::Cell> cells(bool T) {
   if (VARIANT) { std::vector<c08::Cell> w; for (auto c : v) if (c.n == 10000 && (c.cfg % 1000) != 4) { c.trials = T ? 400 : 60; w.push_back(c); } return w; }
   return v;
 }
-uint64_t num_cases(bool thorough) { return static_cast<uint64_t>(thorough ? NEXH_T : NEXH_Q) + cells(thorough).size() + (VARIANT ? 4 : NEXACT_FULL); }
+uint64_t num_cases(bool thorough) { return static_cast<uint64_t>(thorough ? NEXH_T : NEXH_Q) + cells(thorough).size() + (VARIANT ? 4 : NEXACT_FULL) + (VARIANT ? 0 : 2); }
 
 void run_case(uint64_t idx, Rng& r) {
   const bool T = G().thorough();
@@ -341,7 +354,9 @@ void run_case(uint64_t idx, Rng& r) {
     try {
       if (idx - nexh < cs.size()) sampled_cell_req(cs[idx - nexh], r);
       else {
-        const uint64_t e = VARIANT ? VARIANT_EXACT[idx - nexh - cs.size()] : idx - nexh - cs.size();       // 0..19
+        const uint64_t pos = idx - nexh - cs.size();
+        if (!VARIANT && pos >= NEXACT_FULL) { if (pos == NEXACT_FULL) c08::doubling_case<ReqFam>(1012, 3000, 34, T ? 6 : 2, r); else c08::doubling_case<ReqFam>(20, 3000, 34, T ? 6 : 2, r); return; }
+        const uint64_t e = VARIANT ? VARIANT_EXACT[pos] : pos;       // 0..19
         const int k = EXACT_KS[e % 5]; const bool hra = ((e / 5) % 2) == 1;
         if (e < 10) exact_stream_case(k, hra, r); else exact_merge_case(k, hra, r);
       }
